@@ -21,7 +21,11 @@ InvH2 == phase = 1 =>
         ((d # 0 => b0 = 0) /\ (n = 0 => b0 = 0) /\ (~Thorough => (tail = FALSE \/ b0 \in {0, 255}))) =>
            PrintT("H2 " \o ToJson([b |-> H2Conn(pre, H2Shape(t, fl, st, n, b0, d), tail)]))
 InvTls == phase = 1 =>
-  \A f \in TlsFields : \A d \in -8..8 : (((d + 8) % Shards) = shard) => PrintT("TLS " \o ToJson([b |-> TlsHelloWith(f, d), field |-> f, delta |-> d]))
+  /\ \A f \in TlsFields : \A d \in -8..8 : (((d + 8) % Shards) = shard) => PrintT("TLS " \o ToJson([b |-> TlsHelloWith(f, d), field |-> f, delta |-> d]))
+  /\ \A i \in 1..Len(TlsTexts) : ((i % Shards) = shard) =>
+        /\ PrintT("TLS " \o ToJson([b |-> TlsHelloText(<<97, 46, 98>>, <<TlsTexts[i]>>), field |-> "text", delta |-> i]))
+        /\ PrintT("TLS " \o ToJson([b |-> TlsHelloText(<<97, 46, 98>>, <<<<104, 50>>, TlsTexts[i]>>), field |-> "text", delta |-> 100 + i]))
+        /\ PrintT("TLS " \o ToJson([b |-> TlsHelloText(TlsTexts[i], <<<<104, 50>>>>), field |-> "text", delta |-> 200 + i]))
 Inv == phase = 1 =>
   \A s \in Sizes : \A p \in 0..(s - 1) : (((s + p) % Shards) = shard) =>
      \A l \in Links, v \in {4, 6}, k \in Kinds, n \in Lens :
